@@ -301,42 +301,69 @@ def val_of_input(pj, inp):
 
 class SafeInterp:
     """the reference interpreter behind a watchdog: a request that takes longer than `limit` seconds
-    (exact rationals can grow) kills and restarts the driver; the request counts as unanswered"""
+    (exact rationals can grow) kills and restarts the driver; the request counts as unanswered.
+    Start-up of the driver is not charged to a request (warm-up with a generous limit)."""
+
+    WARM = {"name": "w", "args": [], "preds": [], "body": [["pass"]]}
 
     def __init__(self, ctx, limit):
         from interp import Interp
 
         self.ctx, self.limit, self.Interp = ctx, limit, Interp
-        self.it = Interp()
+        self.timeouts = 0
+        self.start()
 
-    def close(self):
+    def start(self):
+        self.it = self.Interp()
+        r = self._ask(self.it.drv, {"op": "exec", "proc": self.WARM, "inputs": []}, 900)
+        if r is None:
+            self.kill()
+            raise InfraError("Sem driver did not start within 900 s")
+
+    def kill(self):
+        p = self.it.drv.p
         try:
-            self.it.drv.p.kill()
+            import subprocess
+
+            subprocess.run(["pkill", "-KILL", "-P", str(p.pid)], capture_output=True)
+            p.kill()
+            p.wait(timeout=10)
         except Exception:  # noqa
             pass
 
-    def run(self, pj, inputs):
+    def close(self):
+        self.kill()
+
+    @staticmethod
+    def _ask(drv, req, limit):
         import select
 
-        if not inputs:
-            return []
-        drv = self.it.drv
-        line = json.dumps({"op": "exec", "proc": pj, "inputs": inputs}, separators=(",", ":"))
+        line = json.dumps(req, separators=(",", ":"))
         try:
             drv.p.stdin.write(line + "\n")
             drv.p.stdin.flush()
         except BrokenPipeError:
             raise InfraError("Sem driver died")
-        ready, _, _ = select.select([drv.p.stdout], [], [], self.limit)
+        ready, _, _ = select.select([drv.p.stdout], [], [], limit)
         if not ready:
-            self.ctx.count("interpreter-timeout")
-            drv.p.kill()
-            self.it = self.Interp()
-            return [{"timeout": True} for _ in inputs]
+            return None
         out = drv.p.stdout.readline()
         if not out:
             raise InfraError("Sem driver died: " + drv.p.stderr.read()[-500:])
-        r = json.loads(out)
+        return json.loads(out)
+
+    def run(self, pj, inputs):
+        if not inputs:
+            return []
+        r = self._ask(self.it.drv, {"op": "exec", "proc": pj, "inputs": inputs}, self.limit)
+        if r is None:
+            self.ctx.count("interpreter-timeout")
+            self.timeouts += 1
+            self.kill()
+            if self.timeouts > 25:
+                raise InfraError("reference interpreter timed out on more than 25 requests")
+            self.start()
+            return [{"timeout": True} for _ in inputs]
         if "bad" in r:
             raise InfraError(f"Sem driver rejected request: {r['bad']}")
         return r["results"]
@@ -631,7 +658,7 @@ def run(ctx):
     ctx.count("prelude:accepted", len(names))
     ctx.count("prelude:rejected", len(prelude_rejected))
     drv = LeanDriver("Drivers/C03.lean")
-    interp = SafeInterp(ctx, ctx.scale(20, 60))
+    interp = SafeInterp(ctx, ctx.scale(45, 120))
     ck = Checker(ctx, front, drv, interp)
     thorough = not ctx.quick
     t_budget = ctx.scale(110, 800)
